@@ -317,9 +317,24 @@ func init() {
 		if len(p) > 0 {
 			args = append(args, in.pack(p))
 		}
+		// a stored hash may be malformed (too short, bad prefix/cost): a third outcome, an error
+		// that is not ErrMismatchedHashAndPassword
+		var hargs []*Term
+		if len(h) > 0 {
+			hargs = append(hargs, in.pack(h))
+		}
+		bad := in.tc.App(fmt.Sprintf("bcrypt_malformed_%d", len(h)), WBool, hargs...)
+		if in.branch(bad) {
+			return in.newError("crypto/bcrypt: hashedSecret too short to be a bcrypted password")
+		}
 		ok := in.tc.App(fmt.Sprintf("bcrypt_ok_%d_%d", len(h), len(p)), WBool, args...)
 		if in.branch(ok) {
 			return Iface{}
+		}
+		if pkg := in.prog.ImportedPackage("golang.org/x/crypto/bcrypt"); pkg != nil {
+			if g := pkg.Var("ErrMismatchedHashAndPassword"); g != nil {
+				return *in.globalAddr(g)
+			}
 		}
 		return in.newError("crypto/bcrypt: hashedPassword is not the hash of the given password")
 	}
